@@ -1,6 +1,9 @@
 // harness: same case protocol as ocaml/driver.ml, run against the real crate.
 mod conv;
 mod lane_peg;
+mod lane_print;
+mod lane_src;
+mod lane_std;
 mod lanes;
 mod plug;
 mod sexp;
@@ -98,6 +101,9 @@ fn handle(s: &Sexp) -> Result<String, String> {
 }
 
 fn main() {
+    if lane_std::child_main() {
+        return;
+    }
     panic::set_hook(Box::new(|_| {}));
     let stdin = std::io::stdin();
     let stdout = std::io::stdout();
